@@ -24,12 +24,14 @@ class LoopSpec:
     heap     : callable(I, st) -> None, havocs the heap locations the loop may modify
     """
 
-    def __init__(self, header, inv=None, modifies=None, heap=None, name=None):
+    def __init__(self, header, inv=None, modifies=None, heap=None, name=None, entry_oblig=None, exit_oblig=None):
         self.header = header
         self.inv = inv
         self.modifies = modifies
         self.heap = heap
         self.name = name
+        self.entry_oblig = entry_oblig    # callable(I, st) -> [(name, formula)] proved at loop entry
+        self.exit_oblig = exit_oblig      # callable(I, st) -> [(name, formula)] proved after the loop (inv at the whole sequence assumed)
 
 
 def assigned_names(stmts):
@@ -254,6 +256,9 @@ def _for_symbolic(I, s, st, skind, seq, ctx, elem_val=None):
     # (1) invariant on entry
     if inv is not None and obligations is not None:
         obligations.append(("loop-inv-entry:%s" % label, st.fork(), inv(I, st, p_empty)))
+    if spec is not None and spec.entry_oblig is not None and obligations is not None:
+        for (nm_, f_) in spec.entry_oblig(I, st):
+            obligations.append(("loop-entry:%s/%s" % (label, nm_), st.fork(), f_))
     # (2) arbitrary iteration
     it = st.fork()
     havoc_vars(I, it, mod)
@@ -317,6 +322,9 @@ def _for_symbolic(I, s, st, skind, seq, ctx, elem_val=None):
         spec.heap(I, ex)
     if inv is not None:
         ex.pc.append(inv(I, ex, p_all))
+    if spec is not None and spec.exit_oblig is not None and obligations is not None and I.feasible(ex):
+        for (nm_, f_) in spec.exit_oblig(I, ex):
+            obligations.append(("loop-exit:%s/%s" % (label, nm_), ex.fork(), f_))
     return _finish(I, s, [ex] if I.feasible(ex) else [], brk, esc, ctx)
 
 
@@ -403,7 +411,13 @@ def _comprehension_symbolic(I, e, g, st, itv, ctx, kind):
             raise OutOfReach("comprehension over %r" % (itv,))
         skind, seq, cond = ss
         if cond is not None and not I.valid(st, cond):
-            raise OutOfReach("comprehension over symbolic value of unknown type")
+            # values that are not tuples/lists: outside the value model (assumed away, recorded)
+            other = st.fork()
+            other.pc.append(z3.Not(cond))
+            other.notes.append("comprehension over a non-tuple/list iterable: outside value model")
+            st.pc.append(cond)
+            pre_out = [(other, Raise("$Unmodelled"))] if I.feasible(other) else []
+            return pre_out + _comprehension_symbolic(I, e, g, st, itv, ctx, kind)
         mk = lambda x: Sym(x)
     probe = st.fork()
     x = U.fresh("celem")
@@ -447,7 +461,8 @@ def _comprehension_symbolic(I, e, g, st, itv, ctx, kind):
                 else:
                     _check_no_heap_write(w, heap_before)
                     for kf in w.ghost:
-                        if kf.startswith("F_") and w.ghost[kf] is not ghost_before.get(kf):
+                        if isinstance(kf, str) and kf.startswith("F_") and kf in ghost_before \
+                                and not w.ghost[kf].eq(ghost_before[kf]):
                             raise OutOfReach("comprehension writes a field map")
     out = [(w, rz) for (w, rz) in raising]
     if kind in ("list", "gen"):
